@@ -113,6 +113,7 @@ class Ev:
         self.call_sites = []     # (caller path, callee path, span, kind)
         self.paths = 0
         self.all_obls = []       # every obligation met on any explored path (including paths that end in the panic)
+        self.entry_generics = set()
         self.frames = {}
         self.abstract = {}       # local fn path -> name: treat calls as uninterpreted pure functions
 
@@ -122,6 +123,7 @@ class Ev:
         dict(pc, ret, store, obls, params)."""
         fn = self.facts.fns[path]
         self.axioms.CURRENT_EV = self
+        self.entry_generics = set(g for g in fn['generics'] if not g.startswith("'"))
         st = St()
         params = []
         names = [l['name'] for l in fn['locals']]
